@@ -4,9 +4,13 @@
 
   One line per scenario:
 
-      S <useQueue 0|1> <cap> <bgLocked 0|1> <ev>;<ev>;…
+      S <useQueue 0|1> <cap> <locked 0|1> <ev>;<ev>;…
 
-  events (sends are numbered 0,1,2,… in the order of their d/q events; `len` is the length of
+  `cap` is the queue capacity the client was built with (the run starts with `setCapacity cap`;
+  0 = unbounded); `locked` = 1: the repaired client (process() connects and sends under the send
+  lock, ApplyConfig re-dials under it), 0: the client as found.
+
+  events (sends are numbered 1,2,3,… in the order of their d/q events; `len` is the length of
   the send's frame — the harness scales real lengths down, the structure is what is compared):
 
       d,<t>,<len>,<ok|connect|write|flush>     direct Send by thread t with that outcome
@@ -14,6 +18,9 @@
       p,<ok|fail>                              process() takes the queue head, sends, flushes
       b,<ok|fail>                              Connect at the top of process()'s loop / initial Connect
       x,<c>,<n>                                the peer closes connection c having received n bytes
+      c,<n>                                    Queue.SetCapacity(n)
+      r,<t>,<ok|fail>                          ApplyConfig by thread t with a changed server list: Close, Connect
+      k,<d>                                    d time units pass
 
   Every event is expanded (Golib.Tcp.Exec.expand) into the atomic actions of the model's program
   and executed with `Tcp.run`; a failing guard rejects the scenario.
@@ -53,6 +60,9 @@ def parseEv (s : String) : Option (Ev × Option Nat) :=
   | ["p", o] => do let o ← parseOk o; pure (.proc o, none)
   | ["b", o] => do let o ← parseOk o; pure (.bg o, none)
   | ["x", c, n] => do let c ← parseNat c; let n ← parseNat n; pure (.peerClose c n, none)
+  | ["c", n] => do let n ← parseInt n; pure (.setCap n, none)
+  | ["r", t, o] => do let t ← parseNat t; let o ← parseOk o; pure (.reconf t o, none)
+  | ["k", d] => do let d ← parseNat d; pure (.tick d, none)
   | _ => none
 
 /-- run-length encoding of a byte list given newest-first -/
@@ -68,15 +78,16 @@ def showConn (s : St) (c : Nat) : String :=
 
 def showResults (s : St) (n : Nat) : String :=
   if n = 0 then "-" else
-  let arr := s.results.foldl (fun (a : Array Char) (sid, ok) => if sid < a.size then a.set! sid (if ok then '1' else '0') else a)
+  let arr := s.results.foldl (fun (a : Array Char) (sid, ok) =>
+      if 0 < sid ∧ sid - 1 < a.size then a.set! (sid - 1) (if ok then '1' else '0') else a)
     (Array.replicate n '-')
   String.ofList arr.toList
 
-def replay (cfg : Cfg) (evs : Array (Ev × Option Nat)) (texts : Array String) : String := Id.run do
+def replay (cfg : Cfg) (cap : Nat) (evs : Array (Ev × Option Nat)) (texts : Array String) : String := Id.run do
   let lens : Array Nat := evs.foldl (fun a (_, l) => match l with | some l => a.push l | none => a) #[]
-  let lenOf := fun sid => lens.getD sid 1
+  let lenOf := fun sid => lens.getD (sid - 1) 1
   let bytesOf := fun sid => List.replicate (lenOf sid) sid
-  let mut s : St := init
+  let mut s : St := (run cfg bytesOf [.setCapacity (cap : Int)] init).getD init
   let mut i := 0
   for (ev, _) in evs do
     match run cfg bytesOf (expand cfg lenOf s ev) s with
@@ -91,10 +102,12 @@ def answer (line : String) : String :=
   | ["S", q, cap, bgl, evs] =>
     match parseNat cap with
     | some cap =>
-      let cfg : Cfg := { useQueue := q == "1", cap := cap, sendLocked := true, bgLocked := bgl == "1" }
+      let lk := bgl == "1"
+      let cfg : Cfg := { useQueue := q == "1", sendLocked := true, bgLocked := lk, procLocked := lk, acLocked := lk,
+                         rearm := true }
       let texts := if evs == "-" then #[] else (evs.splitOn ";").toArray
       match texts.mapM parseEv with
-      | some es => replay cfg es texts
+      | some es => replay cfg cap es texts
       | none => "bad-event"
     | none => "bad-line"
   | _ => "bad-line"
